@@ -65,6 +65,7 @@ pub struct Life {
     pub system_idx: usize,
     pub boot: u32,
     pub key_id: u64,
+    pub versions: Vec<Vec<u32>>,
     pub end_why: String,
     pub started: bool,
 }
@@ -73,7 +74,7 @@ pub fn lives(h: &History) -> Vec<Life> {
     let mut out: Vec<Life> = vec![];
     for (i, r) in h.iter().enumerate() {
         match &r.kind {
-            Kind::LifeStart { mode, os_version, cup, service_url, presets, system_idx, boot, key_id } => {
+            Kind::LifeStart { mode, os_version, cup, service_url, presets, system_idx, boot, key_id, versions, .. } => {
                 out.push(Life {
                     life: r.life,
                     start: i,
@@ -86,6 +87,7 @@ pub fn lives(h: &History) -> Vec<Life> {
                     system_idx: *system_idx,
                     boot: *boot,
                     key_id: *key_id,
+                    versions: versions.clone(),
                     end_why: String::new(),
                     started: false,
                 });
